@@ -876,6 +876,10 @@ def generate(rng, index, tier):
             want_sens = False
             op = {'op': 'eval', 'kind': ek,
                   'x': _vals(rng, n), 'seed': rng.randint(0, 10 ** 6)}
+            if kind == 'error' and ek in ('sample', 'pw') \
+                    and rng.random() < 0.25:
+                # whole-number error parameters handed over as integers
+                op['x'] = [rng.randint(1, 2) for _ in op['x']]
             if kind == 'error':
                 nt = rng.randint(1, 5)
                 op['model_output'] = _vals(rng, nt, 0.3, 3.0)
